@@ -769,9 +769,11 @@ impl<'o> Hist<'o> {
         let mem_pre: Vec<u8> = self.runners[0].mem()[..used].to_vec();
         let magic_pre = self.runners[0].describe().iter().find(|x| x.0 == "magic_version").map(|x| x.1.clone());
         if flush {
-            let o = self.runners[0].flush();
+            let kind = self.rng.below(8) as u8;
+            self.out.inc(&format!("c05_flush_variant.{}", kind));
+            let o = self.runners[0].flush(kind);
             if o != Obs::Res(Ok(())) {
-                self.viol(&["C05"], "flush-failed", format!("flush() returned {:?}", o));
+                self.viol(&["C05"], "flush-failed", format!("flush variant {} (0 flush, 1 flush_async, 2 flush_range, 3 flush_async_range, 4 flush_header, 5 flush_async_header, 6 flush_header_and_range, 7 flush_async_header_and_range) returned {:?}", kind, o));
                 return;
             }
         }
